@@ -2,10 +2,13 @@
    1. VersionedDict (glue/core/state.py) as a state machine over operations;
    2. saver / loader dispatch over the regenerated class table and registries (Gen_tables);
    3. renamed-class redirection: iterate PATH_PATCHES until a name that is not a key.
+   4. the functions TRANSLATED from glue/core/state.py (gen/Gen_dispatch.v, regenerated on every run) instantiated on the wire
+      (interpreters grun / grun_reg_ops, table instances gen_saver_of / gen_loader_of / gen_resolve / gen_roundtrip);
+      C12/GenEquiv.v proves that they compute what the hand-written definitions of 1-3 compute.
    [run_case] is the wire entry point used by the correspondence harness. *)
 From Coq Require Import ZArith List Bool String.
 Import ListNotations.
-From GV Require Import Common.Wire gen.Gen_tables.
+From GV Require Import Common.Wire gen.Gen_tables gen.Gen_dispatch.
 Open Scope Z_scope.
 
 (* ================================================================= 1. VersionedDict *)
@@ -180,6 +183,18 @@ Fixpoint load_lookup (d : vd) (mro : list Z) (v : Z) : option (Z * Z) :=
               end
   end.
 
+(* the same walk with its side effect: get_version(t, version) READS self._data[t], which creates an (empty) entry for every
+   class of the MRO that is visited *)
+Fixpoint load_walk (d : vd) (mro : list Z) (v : Z) : vd * option (Z * Z) :=
+  match mro with
+  | [] => (d, None)
+  | t :: r => let d1 := touch t d in
+              match stored d1 t v with
+              | Some x => (d1, Some (t, x))
+              | None => load_walk d1 r v
+              end
+  end.
+
 Inductive rop :=
 | RegSaver (c : Z) (ver : option Z) (val : Z)
 | RegLoader (c : Z) (ver : option Z) (val : Z)
@@ -189,7 +204,7 @@ Inductive rop :=
 Definition mro_of (cl : list (Z * list Z)) (c : Z) : list Z :=
   match find (fun p => fst p =? c) cl with Some p => snd p | None => [c] end.
 
-(* one result per operation: registration outcome / (class, version, function) used by the save or load *)
+(* one result per operation: registration outcome / (_type, version, function) of the save or load *)
 Inductive rres := RReg (r : res) | RUsed (t v x : Z) | RRaises (code : Z).
 
 Fixpoint run_reg_ops (cl : list (Z * list Z)) (sv lv : vd) (ops : list rop) : list rres :=
@@ -199,16 +214,17 @@ Fixpoint run_reg_ops (cl : list (Z * list Z)) (sv lv : vd) (ops : list rop) : li
   | RegLoader c ver val :: r => let '(lv', x) := step lv (SetItem c ver val) in RReg x :: run_reg_ops cl sv lv' r
   | DoSave c :: r =>
       (match save_lookup sv (mro_of cl c) with
-       | Some (t, RPair x v) => RUsed t v x
+       | Some (t, RPair x v) => RUsed c v x       (* the record is stamped with the object's own class and the saver's version *)
        | Some (_, RValueError) => RRaises 1
        | Some (_, _) => RRaises 2
        | None => RRaises 5                      (* GlueSerializeError: don't know how to serialize *)
        end) :: run_reg_ops cl sv lv r
   | DoLoad c v :: r =>
-      (match load_lookup lv (mro_of cl c) v with
-       | Some (t, x) => RUsed t v x
+      let '(lv', x) := load_walk lv (mro_of cl c) v in
+      (match x with
+       | Some (t, x) => RUsed c v x
        | None => RRaises 5
-       end) :: run_reg_ops cl sv lv r
+       end) :: run_reg_ops cl sv lv' r
   end.
 
 (* ================================================================= 3. renamed classes *)
@@ -245,6 +261,159 @@ Definition target_ok (t : Z) : bool :=
   match find (fun r => t_name r =? t) targets with
   | Some r => implb (t_in_glue r) (t_importable r)
   | None => false
+  end.
+
+(* ================================================================= 4. the translated functions on the wire *)
+
+(* a version object on the wire: 2 * n is the integer n, an odd number is an object that int() rejects *)
+Definition wire_int (x : Z) : option Z := if Z.even x then Some (x / 2) else None.
+Definition raw_of (v : option Z) : Z := match v with Some x => 2 * x | None => 1 end.
+
+Definition exc_code (e : exc) : Z :=
+  match e with ValueError => 1 | KeyError => 2 | TypeError => 3 | GlueSerializeError => 5 end.
+Definition oc_res {A} (f : A -> res) (r : outcome A) : res :=
+  match r with Ret v => f v | Raise KeyError => RKeyError | Raise ValueError => RValueError | _ => RNone end.
+
+Definition MODULE_MARK : Z := -7.
+Definition str_is (a b : string) : bool := String.eqb a b.
+
+(* hand model of the stamping done by GlueSerializer.do: the record returned by the saver gets the name of the object's type and,
+   for versions above 1, the protocol version *)
+Definition type_name_written (o : ops) (obj : Z) : Z :=
+  if isinstance_ o obj "types.FunctionType" then intern o "types.FunctionType"
+  else if isinstance_ o obj "types.MethodType" then intern o "types.MethodType"
+  else dotted o (getattr_ o (py_type o obj) "__module__") (getattr_ o (py_type o obj) "__name__").
+Definition stamp (o : ops) (obj version : Z) (r : sdict) : sdict :=
+  let r1 := sd_setitem "_type" (type_name_written o obj) r in
+  if version >? 1 then sd_setitem "_protocol" version r1 else r1.
+Definition rec_full (c v : Z) : sdict := [("_type"%string, c); ("_protocol"%string, v)].
+
+(* objects are their own class; an object has no __gluestate__; the saver function f returns {"fn": f} *)
+Definition reg_ops (cl : list (Z * list Z)) : ops :=
+  {| py_int := wire_int; py_type := fun x => x; mro := mro_of cl;
+     hasattr_ := fun _ _ => false;
+     getattr_ := fun x a => if str_is a "__module__" then MODULE_MARK else x;
+     isinstance_ := fun _ _ => false; in_global := fun _ _ => false; flat_literals := fun _ => false;
+     dotted := fun a b => if a =? MODULE_MARK then b else -1;
+     intern := fun _ => -1; lookup_class := fun n => Ret n;
+     call_saver := fun f _ => [("fn"%string, f)]; path_patches := [] |}.
+
+(* VersionedDict operations through the translated methods *)
+Definition gstep (o : ops) (d : vd) (op_ : op) : vd * res :=
+  match op_ with
+  | SetItem k ver val => let '(d1, r) := vd_setitem o [k; raw_of ver] val d in (d1, oc_res (fun _ => RNone) r)
+  | SetBadKey => let '(d1, r) := vd_setitem o [7] 1 d in (d1, oc_res (fun _ => RNone) r)
+  | GetItem k => let '(d1, r) := vd_getitem o k d in (d1, oc_res (fun p => RPair (fst p) (snd p)) r)
+  | GetLatest k => let '(d1, r) := vd_get_version o k None d in (d1, oc_res RVal r)
+  | GetVersion k v => let '(d1, r) := vd_get_version o k (Some v) d in (d1, oc_res RVal r)
+  | Contains k => let '(d1, r) := vd_contains o k d in (d1, oc_res RBool r)
+  | Len => let '(d1, r) := vd_len o d in (d1, oc_res RVal r)
+  end.
+
+Fixpoint grun (o : ops) (d : vd) (ops_ : list op) : vd * list res :=
+  match ops_ with
+  | [] => (d, [])
+  | x :: r => let '(d1, y) := gstep o d x in let '(d2, ys) := grun o d1 r in (d2, y :: ys)
+  end.
+
+(* the record {_type: c, _protocol: v} as GlueSerializer.do leaves it (no _protocol for version 1) *)
+Definition rec_of (c v : Z) : sdict :=
+  if v >? 1 then [("_type"%string, c); ("_protocol"%string, v)] else [("_type"%string, c)].
+
+(* registrations through the translated decorators, saves through GlueSerializer.do, loads through GlueUnSerializer._dispatch *)
+Fixpoint grun_reg_ops (o : ops) (sv lv : vd) (ops_ : list rop) : list rres :=
+  match ops_ with
+  | [] => []
+  | RegSaver c ver val :: r =>
+      let '(sv1, x) := saver o c (raw_of ver) val sv in RReg (oc_res (fun _ => RNone) x) :: grun_reg_ops o sv1 lv r
+  | RegLoader c ver val :: r =>
+      let '(lv1, x) := loader o c (raw_of ver) val lv in RReg (oc_res (fun _ => RNone) x) :: grun_reg_ops o sv lv1 r
+  | DoSave c :: r =>
+      let '(sv1, _, x) := ser_do o c sv [] in
+      (match x with
+       | Ret (PRec rc) => RUsed (sd_get "_type" (-1) rc) (sd_get "_protocol" 1 rc) (sd_get "fn" (-1) rc)
+       | Ret _ => RRaises 9
+       | Raise e => RRaises (exc_code e)
+       | OutOfFuel => RRaises 8
+       end) :: grun_reg_ops o sv1 lv r
+  | DoLoad c v :: r =>
+      let '(lv1, x) := unser_dispatch o 0%nat (rec_full c v) lv in
+      (match x with
+       | Ret f => RUsed c v f
+       | Raise e => RRaises (exc_code e)
+       | OutOfFuel => RRaises 8
+       end) :: grun_reg_ops o sv lv1 r
+  end.
+
+(* ---- the translated dispatch over the regenerated tables ---- *)
+Definition fid (t v : Z) : Z := t * 1000 + v.              (* the function registered for (t, v) *)
+Definition meth_id (p : Z) : Z := - p - 1.                  (* the __gluestate__ / __setgluestate__ that class p provides *)
+Definition reg_of_savers (sv : list saver_row) : vd :=
+  map (fun r => (s_cls r, map (fun v => (v, fid (s_cls r) v)) (s_versions r))) sv.
+Definition reg_of_loaders (lv : list loader_row) : vd :=
+  map (fun r => (l_cls r, map (fun v => (v, fid (l_cls r) v)) (l_versions r))) lv.
+Definition patch_table (ps : list patch_row) : inner := map (fun p => (p_from p, p_to p)) ps.
+Definition name_id (s : string) : Z :=
+  match find (fun p => String.eqb (snd p) s) names with Some p => fst p | None => -1 end.
+
+(* an object of class c is c; names of classes are their ids (type(obj).__module__ = __name__ = the id, "%s.%s" joins equal halves) *)
+Definition tbl_ops_in (cl : list cls_row) (pp : inner) (lc : Z -> outcome Z) : ops :=
+  {| py_int := fun x => Some x; py_type := fun x => x;
+     mro := fun x => match find_cls_in cl x with Some r => c_mro r | None => [x] end;
+     hasattr_ := fun x a => match find_cls_in cl x with
+                            | Some r => if str_is a "__gluestate__" then is_some (c_gs r)
+                                        else if str_is a "__setgluestate__" then is_some (c_sgs r) else false
+                            | None => false
+                            end;
+     getattr_ := fun x a => match find_cls_in cl x with
+                            | Some r => if str_is a "__gluestate__" then match c_gs r with Some p => meth_id p | None => x end
+                                        else if str_is a "__setgluestate__" then match c_sgs r with Some p => meth_id p | None => x end
+                                        else x
+                            | None => x
+                            end;
+     isinstance_ := fun x a => if str_is a "types.FunctionType" then x =? name_id "builtins.function"
+                               else if str_is a "types.MethodType" then x =? name_id "builtins.method" else false;
+     in_global := fun _ _ => false; flat_literals := fun _ => false;
+     dotted := fun a b => if a =? b then a else -1;
+     intern := fun s => if str_is s "types.FunctionType" then name_id "builtins.function"
+                        else if str_is s "types.MethodType" then name_id "builtins.method" else name_id s;
+     lookup_class := lc;
+     call_saver := fun f _ => [("fn"%string, f)]; path_patches := pp |}.
+
+Definition lc_id (n : Z) : outcome Z := Ret n.
+(* glue.utils.lookup_class over the class table: a name resolves to the row of that name, otherwise ValueError *)
+Definition types_alias (n : Z) : Z :=          (* the aliases of the standard module `types` (a fact of Python, not of the package) *)
+  if n =? name_id "types.BuiltinFunctionType" then name_id "builtins.builtin_function_or_method"
+  else if n =? name_id "types.FunctionType" then name_id "builtins.function"
+  else if n =? name_id "types.MethodType" then name_id "builtins.method" else n.
+Definition lc_classes (n : Z) : outcome Z :=
+  let n' := types_alias n in if is_some (find_cls n') then Ret n' else Raise ValueError.
+
+Definition gen_saver_of_in (sv : list saver_row) (cl : list cls_row) (c : cls_row) : outcome (Z * Z) :=
+  snd (ser_dispatch (tbl_ops_in cl [] lc_id) (c_id c) (reg_of_savers sv)).
+Definition gen_loader_of_in (lv : list loader_row) (cl : list cls_row) (c : cls_row) (v : Z) : outcome Z :=
+  snd (unser_dispatch (tbl_ops_in cl [] lc_id) 0%nat (rec_of (c_id c) v) (reg_of_loaders lv)).
+Definition gen_saver_of := gen_saver_of_in savers classes.
+Definition gen_loader_of := gen_loader_of_in loaders classes.
+
+(* the rename loop alone (lookup_class = identity) *)
+Definition gen_resolve_in (ps : list patch_row) (fuel : nat) (nm : Z) : outcome Z :=
+  lookup_class_with_patches (tbl_ops_in [] (patch_table ps) lc_id) fuel nm.
+Definition gen_resolve (nm : Z) : outcome Z := gen_resolve_in patches (List.length patches) nm.
+
+(* save with the registry as it was when version v was the newest of class t, then load the record with today's loaders,
+   today's rename table and the class table: the whole pipeline of translated functions *)
+Definition savers_upto (t v : Z) : list saver_row :=
+  map (fun r => if s_cls r =? t then mkSaver (s_cls r) (filter (fun v' => v' <=? v) (s_versions r)) (s_shapes r) else r) savers.
+Definition full_ops : ops := tbl_ops_in classes (patch_table patches) lc_classes.
+Definition gen_written (t v : Z) : outcome pyv :=
+  snd (ser_do full_ops t (reg_of_savers (savers_upto t v)) []).
+Definition gen_roundtrip (t v : Z) : outcome Z :=
+  match gen_written t v with
+  | Ret (PRec rc) => snd (unser_dispatch full_ops (List.length patches) rc (reg_of_loaders loaders))
+  | Ret _ => Raise TypeError
+  | Raise e => Raise e
+  | OutOfFuel => OutOfFuel
   end.
 
 (* ================================================================= wire *)
@@ -299,6 +468,12 @@ Definition enc_rres (r : rres) : tree :=
   | RRaises c => err c
   end.
 
+Definition how_of_fn (f v : Z) : how := if f <? 0 then Meth (- f - 1) else Reg (f / 1000) v.
+Definition enc_oc_how (r : outcome how) : tree :=
+  match r with Ret h => T 1 [enc_how (Some h)] | Raise GlueSerializeError => T 1 [enc_how None] | Raise e => err (exc_code e) | OutOfFuel => err 8 end.
+Definition oc_map {A B} (f : A -> B) (r : outcome A) : outcome B :=
+  match r with Ret v => Ret (f v) | Raise e => Raise e | OutOfFuel => OutOfFuel end.
+
 Definition run_case (t : tree) : tree :=
   match t with
   | T 1 ops => let '(d, rs) := run [] (map dec_op ops) in T 0 [T 0 (map enc_res rs); enc_vd d]
@@ -314,5 +489,23 @@ Definition run_case (t : tree) : tree :=
   (* registrations interleaved with saves and loads over throw-away classes: T 20 [classes (T id mro); ops] *)
   | T 20 [T _ cls; T _ ops] =>
       T 0 (map enc_rres (run_reg_ops (map (fun c => (tag c, to_zs c)) cls) [] [] (map dec_rop ops)))
+  (* ---- the same entry points through the functions translated from state.py (Gen_dispatch) ---- *)
+  | T 31 ops => let '(d, rs) := grun (reg_ops []) [] (map dec_op ops) in T 0 [T 0 (map enc_res rs); enc_vd d]
+  | T 32 [T _ cls; T _ ops] =>
+      T 0 (map enc_rres (grun_reg_ops (reg_ops (map (fun c => (tag c, to_zs c)) cls)) [] [] (map dec_rop ops)))
+  | T 33 [T c _] => match find_cls c with
+                    | Some r => enc_oc_how (oc_map (fun p => how_of_fn (fst p) (snd p)) (gen_saver_of r))
+                    | None => err (-3) end
+  | T 34 [T c _; T v _] => match find_cls c with
+                           | Some r => enc_oc_how (oc_map (fun f => how_of_fn f v) (gen_loader_of r v))
+                           | None => err (-3) end
+  | T 35 [T n _] => match gen_resolve n with Ret r => T 1 [leaf r] | Raise e => err (exc_code e) | OutOfFuel => T 0 [] end
+  | T 36 [T t _; T v _] =>
+      match gen_written t v with
+      | Ret (PRec rc) => T 1 [leaf (sd_get "_type" (-1) rc); leaf (sd_get "_protocol" 1 rc); leaf (sd_get "fn" (-1) rc);
+                              enc_oc_how (oc_map (fun f => how_of_fn f v) (gen_roundtrip t v))]
+      | Ret _ => err 9 | Raise e => err (exc_code e) | OutOfFuel => err 8
+      end
+  | T 37 _ => T 0 (map (fun '(l, c, v, f) => T (of_bool l) [leaf c; of_opt_z v; leaf f]) registrations)
   | _ => err (-2)
   end.
